@@ -170,10 +170,25 @@ SAMPLING_CONFIGS = [("Gaussian", {}), ("Exponential", {}), ("Matern", {}), ("Mat
                     ("Stable", {}), ("Stable", {"alpha": 0.5}), ("Rational", {}), ("Rational", {"alpha": 0.5}), ("Cubic", {}), ("Linear", {}),
                     ("Circular", {}), ("Spherical", {}), ("HyperSpherical", {}), ("SuperSpherical", {}), ("JBessel", {}),
                     ("TPLGaussian", {}), ("TPLExponential", {}), ("TPLStable", {}), ("TPLSimple", {})]
+# non-default parameter regions (a `rescale` factor, a lower cut-off `len_low` of the truncated power law models): the closed-form
+# cdf / ppf / densities have their own occurrences of len_scale / len_rescaled / len_low, which the default configurations never
+# tell apart.  Only configurations whose outcome on the pristine tree is clean are listed (the MCMC biases S1 / S3 are known findings
+# identified by configuration; see DESIGN §9).
+EXTRA_SAMPLING = (
+    [("Exponential", {"rescale": 3.0}, d, N) for d, N in ((1, 64), (1, 1000), (2, 64), (2, 1000), (3, 1000))]
+    + [("Gaussian", {"rescale": 0.5}, d, N) for d in (1, 2, 3) for N in (64, 1000)]
+    + [("Matern", {"nu": 1.5, "rescale": 2.0}, d, N) for d, N in ((1, 1000), (2, 64), (2, 1000), (3, 1000))]
+    + [("TPLGaussian", {"len_low": 1.0}, d, N) for d, N in ((1, 1000), (2, 64), (2, 1000), (3, 64), (3, 1000))]
+    + [("TPLGaussian", {"hurst": 0.3, "len_low": 3.0}, d, N) for d in (1, 2, 3) for N in (64, 1000)]
+    + [("TPLExponential", {"len_low": 1.0}, d, 1000) for d in (2, 3)]
+    # the `sampling=` option of the generator (keys starting with _gen_ go to RandMeth): forced inversion / forced MCMC
+    + [("Gaussian", {"_gen_sampling": smp}, d, 64) for smp in ("inversion", "mcmc") for d in (1, 2, 3)]
+    + [("Exponential", {"_gen_sampling": "inversion"}, d, 64) for d in (1, 2, 3)]
+    + [("Exponential", {"_gen_sampling": "inversion", "rescale": 3.0}, 3, 64), ("Gaussian", {"_gen_sampling": "mcmc", "rescale": 0.5}, 2, 1000)])
 REL_LAGS = np.array([0.05, 0.25, 0.5, 1.0, 2.0])
 
 
-def sampling_bias(gs, model, N, M, seed0):
+def sampling_bias(gs, model, N, M, seed0, gen_kw=None):
     """By the theorem `cov_given_modes` the covariance of the randomization field given its wave vectors is EXACTLY
     (var/N) sum_j cos<k_j, h>; so the only statistical question left is whether E_k[(1/N) sum_j cos<k_j, h>] = rho(h), i.e. whether the
     wave vectors are drawn from the model's spectral density.  Averaging that conditional covariance over seeds removes the amplitude
@@ -182,7 +197,7 @@ def sampling_bias(gs, model, N, M, seed0):
     lags = REL_LAGS * model.len_scale
     acc = np.zeros((M, len(lags)))
     for i in range(M):
-        g = RandMeth(model, mode_no=N, seed=int(seed0 + i))
+        g = RandMeth(model, mode_no=N, seed=int(seed0 + i), **(gen_kw or {}))
         acc[i] = np.mean(np.cos(np.outer(lags, g._cov_sample[0])), axis=1)     # lag along the first axis (isotropic model)
     m = acc.mean(0)
     se = acc.std(0, ddof=1) / np.sqrt(M) + 1e-300
@@ -200,12 +215,12 @@ def _sampling_one(job):
             with warnings.catch_warnings():
                 warnings.simplefilter("error")
                 try:
-                    model = getattr(gs, name)(dim=dim, len_scale=2.0, **kw)
+                    model = getattr(gs, name)(dim=dim, len_scale=2.0, **{k: v for k, v in kw.items() if not k.startswith("_gen_")})
                 except Warning:
                     return None
         except Exception:
             return None
-        d, z = sampling_bias(gs, model, N, M, 7000)
+        d, z = sampling_bias(gs, model, N, M, 7000, {k[5:]: v for k, v in kw.items() if k.startswith("_gen_")})
     return d, z, repr(model)
 
 
@@ -251,8 +266,12 @@ def sampling_search(ctx, deep, only=None, record=None):
         todo = [("Exponential", {}, 3, 64), ("Spherical", {}, 3, 1000), ("Gaussian", {}, 3, 64), ("Exponential", {}, 2, 64)]
         idx = rng.permutation(len(allc))[:3]
         todo += [allc[i] for i in idx]
+        todo += [("Exponential", {"rescale": 3.0}, 2, 64), ("Gaussian", {"rescale": 0.5}, 3, 64),
+                 ("TPLGaussian", {"len_low": 1.0}, 2, 1000), ("TPLExponential", {"len_low": 1.0}, 3, 1000)]
+        idx = rng.permutation(len(EXTRA_SAMPLING))[:3]
+        todo += [EXTRA_SAMPLING[i] for i in idx if EXTRA_SAMPLING[i] not in todo]
     else:
-        todo = allc
+        todo = allc + list(EXTRA_SAMPLING)
     base = sampling_baseline().get("quick" if ctx.quick else "thorough", {})
     viol, ev = [], 0
     jobs = [(name, kw, dim, N, (60 if N <= 64 else 24) if ctx.quick else (200 if N <= 64 else 60)) for name, kw, dim, N in todo]
@@ -297,7 +316,7 @@ def fourier_finite_search(ctx):
                     if dim == 3 and mn > 16 and ctx.quick:
                         continue
                     try:
-                        model = getattr(gs, name)(dim=dim, len_scale=2.0, **kw)
+                        model = getattr(gs, name)(dim=dim, len_scale=2.0, **{k: v for k, v in kw.items() if not k.startswith("_gen_")})
                     except Exception:
                         continue
                     srf = gs.SRF(model, generator="Fourier", seed=7, mode_no=[mn] * dim, period=[16.0] * dim)
